@@ -46,6 +46,8 @@ type res struct {
 	M       string // model of the standard-library namesake (third driver column), "-" if none
 }
 
+var cpuWas map[string]bool
+
 var (
 	flagProp   = flag.String("prop", "", "property id")
 	flagTier   = flag.String("tier", "quick", "quick|thorough")
@@ -58,6 +60,7 @@ var (
 	flagDump   = flag.String("dump", "", "write generated op lines to this file and exit")
 	flagNoA    = flag.Bool("noa", false, "ignore the algorithm model (specification only)")
 	flagCorpus = flag.String("corpus", "", "directory of *.ops files (minimised past disagreements) that run first")
+	flagCPU    = flag.String("cpu", "", "comma list of golang.org/x/sys/cpu features to clear in-process before running: avx2, popcnt (the assembly kernels of internal/bytealg test these variables; GODEBUG=cpu.* only reaches the standard library's internal/cpu)")
 )
 
 func infra(format string, a ...any) {
@@ -135,7 +138,7 @@ func opLineAt(ops []op, n int) string {
 }
 
 type violation struct {
-	Kind string // "I!=S", "I!=A", "I!=std", "std!=M", "identity", "parity", "PANIC", "HANG"
+	Kind string // "I!=S", "I!=A", "I!=std", "std!=M", "identity", "parity", "PANIC", "HANG", "cpu-dependence"
 	Op   string
 	I    string
 	A    string
@@ -147,6 +150,7 @@ type violation struct {
 
 func main() {
 	flag.Parse()
+	cpuWas = clearCPU(*flagCPU)
 	if *flagProp == "" || *flagDriver == "" {
 		infra("usage: corr -prop Cxx -driver path [...]")
 	}
@@ -273,6 +277,7 @@ wait:
 			viols = append(viols, violation{Kind: "std!=M", Op: o.Line(), I: r.I, A: r.A, S: r.S, Std: o.StdRaw, Note: "std-model=" + r.M, Fam: o.Fam})
 		}
 	}
+	viols = append(viols, cpuPasses(ops, results)...)
 	viols = append(viols, groupChecks(*flagProp, ops, results)...)
 	// a table function disagrees with its model: look for an input on which an exported function goes wrong
 	if more := tableFollowUp(ops, results, viols); len(more) > 0 {
@@ -294,6 +299,62 @@ wait:
 		results = append(results, out...)
 	}
 	report(viols, ops, results, start, scale)
+}
+
+// cpuPasses re-evaluates every op on the real code with one golang.org/x/sys/cpu feature cleared at a time (the variables
+// the assembly kernels test: AVX2 -> the SSE loops at every length; POPCNT -> the Go counting fallback) and compares with
+// the first evaluation.  The specification's answer does not depend on the CPU, so a difference is a concrete violation.
+var cpuPassInfo = map[string]int{}
+
+func cpuPasses(ops []op, results []res) []violation {
+	if *flagProp == "tables" {
+		return nil
+	}
+	var out []violation
+	for _, feat := range []string{"avx2", "popcnt"} {
+		if !cpuWas[feat] || strings.Contains(*flagCPU, feat) {
+			continue // not available on this machine, or already cleared for the whole run
+		}
+		clearCPU(feat)
+		alt := make([]string, len(ops))
+		var wg sync.WaitGroup
+		workers := runtime.NumCPU()
+		chunk := (len(ops) + workers - 1) / workers
+		for w := 0; w < workers; w++ {
+			lo, hi := w*chunk, (w+1)*chunk
+			if hi > len(ops) {
+				hi = len(ops)
+			}
+			if lo >= hi {
+				continue
+			}
+			wg.Add(1)
+			go func(lo, hi int) {
+				defer wg.Done()
+				for i := lo; i < hi; i++ {
+					alt[i] = impl.Eval(ops[i].Op)
+				}
+			}(lo, hi)
+		}
+		wg.Wait()
+		restoreCPU(cpuWas)
+		cpuPassInfo[feat] = len(ops)
+		for i, o := range ops {
+			if alt[i] == results[i].I {
+				continue
+			}
+			r := results[i]
+			kind := "cpu-dependence"
+			if alt[i] == "PANIC" {
+				kind = "PANIC"
+			} else if !o.NoS && r.S != "-" && r.S != alt[i] {
+				kind = "I!=S"
+			}
+			out = append(out, violation{Kind: kind, Op: o.Line(), I: alt[i], A: r.A, S: r.S, Fam: o.Fam,
+				Note: fmt.Sprintf("with golang.org/x/sys/cpu feature %s cleared (result with the detected features: %s)", feat, r.I)})
+		}
+	}
+	return out
 }
 
 // tableFollowUp: for every code point on which a table function of the real code disagrees with the model,
@@ -447,6 +508,9 @@ func report(viols []violation, ops []op, results []res, start time.Time, scale i
 	}
 	cov := map[string]any{
 		"evaluations":              len(ops),
+		"cpu_features_cleared":     *flagCPU,
+		"cpu_passes":               cpuPassInfo,
+		"cpu_features_detected":    cpuWas,
 		"distinct_ops":             len(distinct),
 		"distinct_nontrivial":      len(nontriv),
 		"rule":                     "ops generated by the families listed under 'families' from one PRNG (seed); distinct = distinct op lines; non-trivial = distinct op lines with a non-empty first argument whose real result is not the default (-1 / 0 / empty)",
